@@ -92,6 +92,10 @@ func genTests(r *rand.Rand, ty string, g genCfg, idp string) []Test {
 				t.User = false
 			}
 		}
+		if !g.noPath && r.Intn(100) < 20 && !(ty == "bool" && !t.User) {
+			ovrCounter++
+			t.Msg = fmt.Sprintf("tm%d", ovrCounter) // a message of its own: it may only ever show on an issue of THIS test
+		}
 		if !g.noPath && r.Intn(100) < 8 && !(ty == "bool" && !t.User) {
 			ovrCounter++
 			t.Path = fmt.Sprintf("%s%d", pick(r, []string{"ovr", "other.path"}), ovrCounter) // unique: two nodes never share an override
